@@ -146,10 +146,11 @@ func (d *disconnectHandler) handleDisconnect() {
 	d.mu.Lock()
 	defer d.mu.Unlock()
 
-	// Only handle if we're the leader
-	if !d.election.isLeader.Load() {
-		return
-	}
+	// The grace period runs from the latest disconnect notification, whoever leads when it
+	// expires: a notification that arrives while this instance is a follower must restart a timer
+	// armed by an earlier one, or that stale timer would demote a later term too early (and an
+	// instance that becomes leader while disconnected would never be covered by a timer at all).
+	// handleGracePeriodExpired checks leadership when the timer fires.
 
 	// Calculate grace period
 	gracePeriod := d.election.cfg.DisconnectGracePeriod
